@@ -15,7 +15,7 @@ ops
 -/
 import Driver.Lib
 import NoKVModel.Base.Cfg
-import NoKVModel.Manifest.Disk
+import NoKVModel.Manifest.Sync
 
 open NoKV NoKV.Manifest Driver
 
@@ -24,6 +24,7 @@ structure St where
   thr : Nat := 0
   sync : Bool := true
   run : Run := {}
+  x : XRun := {}
 
 def b01 (b : Bool) : String := if b then "1" else "0"
 
@@ -121,6 +122,10 @@ def stepStr : Step → String
   | .writeTmp _ => "wf:T"
   | .renameTmp => "rn:T>C"
   | .writeCur _ => "wf:C"
+  | .tmpOpen => "of:T"
+  | .tmpWrite _ => "fw:T"
+  | .tmpSync => "fs:T"
+  | .tmpClose => "fc:T"
   | .remove n => s!"rm:M{n}"
 
 def traceStr (ss : List Step) : String :=
@@ -140,6 +145,7 @@ def setCfg (c : MCfg) (kv : String) : Option MCfg :=
     | "mf.currentAfterSnapshot" => pure { c with currentAfterSnapshot := b }
     | "mf.removeOldAfterCurrent" => pure { c with removeOldAfterCurrent := b }
     | "mf.currentViaRename" => pure { c with currentViaRename := b }
+    | "mf.currentTmpSynced" => pure { c with currentTmpSynced := b }
     | "mf.syncOnAppend" => pure { c with syncOnAppend := b }
     | "mf.rewriteAtGE" => pure { c with rewriteAtGE := b }
     | "mf.verifyTruncPartLen" => pure { c with verifyTruncPartLen := b }
@@ -181,7 +187,8 @@ def crashLine (st : St) (mode : String) (imgs : List Image) : String :=
 def doCall (st : St) (cl : Call) : St × String :=
   let (ss, _) := callSteps st.cfg st.thr st.sync st.run.mgr st.run.disk cl
   let run' := Run.call st.cfg st.thr st.sync st.run cl
-  ({ st with run := run' }, "ok " ++ traceStr ss ++ "\t*")
+  let x' := XRun.call st.cfg st.thr st.sync st.x cl
+  ({ st with run := run', x := x' }, "ok " ++ traceStr ss ++ "\t*")
 
 def step (st : St) (toks : List String) : St × String :=
   match toks with
@@ -193,7 +200,7 @@ def step (st : St) (toks : List String) : St × String :=
     match kv? [t] "thr", kv? [s] "sync" with
     | some t, some s =>
       match natOf? t, parseBool? s with
-      | some t, some s => ({ st with thr := t, sync := s, run := {} }, "ok\t*")
+      | some t, some s => ({ st with thr := t, sync := s, run := {}, x := {} }, "ok\t*")
       | _, _ => (st, "bad-op")
     | _, _ => (st, "bad-op")
   | "edit" :: rest =>
@@ -222,11 +229,38 @@ def step (st : St) (toks : List String) : St × String :=
     | some v =>
       let cur := st.run.disk.current.getD 1
       let run' := { st.run with mgr := { v := v, cur := cur, next := cur + 1 } }
-      ({ st with run := run' }, dumpTok v ++ "\t" ++ before)
+      let x' := { st.x with mgr := { v := v, cur := cur, next := cur + 1 } }
+      ({ st with run := run', x := x' }, dumpTok v ++ "\t" ++ before)
   | ["crashpoints", mode] =>
     let r := st.run
     (st, crashLine st mode (r.images ++ [⟨r.disk, r.edits.length, r.edits.length⟩]) ++ "\tok*")
   | ["torn", mode] => (st, crashLine st mode st.run.torn ++ "\tok*")
+  | ["losspoints", mode] =>
+    -- every crash point × every loss of bytes written since the last sync; lower bound = durable
+    let ds := prefixDumps st.cfg st.x.edits
+    let rec_ := if mode == "raw" then recoverOpen st.cfg else recoverDB st.cfg
+    let cands := st.x.allCands
+    let rs := cands.flatMap fun cd => (lossVariants cd.disk cd.sync).map fun d' => matchState ds cd.durable (rec_ d')
+    let good := rs.all fun r => r.toNat?.isSome
+    (st, (if good then "ok" else "bad") ++ s!" n={cands.length} v={rs.length} js=" ++ ",".intercalate rs ++
+      (if st.sync then "\tok*" else "\t*"))
+  | ["crash", i, v] =>
+    match natOf? i, natOf? v with
+    | some i, some v =>
+      let cands := st.x.allCands
+      let cd := cands.getD (i % cands.length) st.x.final
+      let vs := lossVariants cd.disk cd.sync
+      let d' := vs.getD (v % vs.length) cd.disk
+      let spec := if st.sync then "\tok*" else "\t*"
+      match st.x.recoverFrom st.cfg cd d' with
+      | none => (st, "bad" ++ spec)
+      | some x' =>
+        let ds := prefixDumps st.cfg st.x.edits
+        if ds[x'.edits.length]? == some (dumpTok x'.mgr.v) then
+          ({ st with x := x', run := { mgr := x'.mgr, disk := x'.disk, edits := x'.edits } },
+            s!"ok j={x'.edits.length} " ++ dumpTok x'.mgr.v ++ spec)
+        else (st, "bad" ++ spec)
+    | _, _ => (st, "bad-op")
   | _ => (st, "bad-op")
 
 def main : IO Unit := Driver.loop ({} : St) step
